@@ -130,6 +130,14 @@ def r8a_diagnostic_codes(ctx):
     pub = [f for f in crate.real_fns() if f.kind == "coroutine" and any(
         (c.get("res") or "").endswith("::publish_diagnostics") for _bb, c in f.calls())
         and any(is_gate_call(f, c) for _bb, c in f.calls())]
+    if not pub:
+        # the collecting half was extracted into a synchronous helper of the server type: look at the publishing coroutine with
+        # that helper inlined
+        for f0 in crate.real_fns():
+            if f0.kind == "coroutine" and any((c.get("res") or "").endswith("::publish_diagnostics") for _bb, c in f0.calls()):
+                v = ctx.inl(f0, depth=1, max_blocks=600, tag="r8a", pred=lambda g: "FixtureDatabase" not in g.id and "config::" not in g.id)
+                if any(is_gate_call(v, c) for _bb, c in v.calls()):
+                    pub.append(v)
     if len(pub) != 1:
         r.anchor_missing("diagnostics publisher", "found %d coroutines that gate and publish diagnostics" % len(pub))
         return r
@@ -486,8 +494,23 @@ def _root(f, op, depth=0):
         return None
     for d in f.whole_defs(l):
         if d[0] == "assign" and d[3][0] == "ref":
-            return _root(f, ["cp", d[3][2]], depth + 1) if not isinstance(d[3][2], int) else d[3][2]
+            return _root(f, ["cp", d[3][2]], depth + 1)
         if d[0] == "assign" and d[3][0] == "use" and op_local(d[3][1]) is not None:
+            p = op_place(d[3][1])
+            fs = proj_fields(place_projs(p)) if p is not None and place_projs(p) else []
+            if len(fs) == 1 and (fs[0][0] == "tuple" or str(fs[0][0]).startswith("(")) and str(fs[0][1]).isdigit():
+                # a field of a tuple that was built from locals (`let (db, root) = scan_and_return(path)`, inlined)
+                tl = place_local(p)
+                for _hop in range(4):
+                    ds = f.whole_defs(tl)
+                    if len(ds) == 1 and ds[0][0] == "assign" and ds[0][3][0] == "use" and op_local(ds[0][3][1]) is not None \
+                            and not place_projs(op_place(ds[0][3][1])):
+                        tl = op_local(ds[0][3][1])
+                    else:
+                        break
+                for d2 in f.whole_defs(tl):
+                    if d2[0] == "assign" and d2[3][0] == "agg" and d2[3][1][0] == "tuple" and int(fs[0][1]) < len(d2[3][2]):
+                        return _root(f, d2[3][2][int(fs[0][1])], depth + 1)
             return _root(f, d[3][1], depth + 1)
         if d[0] == "call" and value_preserving(d[2]) and d[2]["args"]:
             return _root(f, d[2]["args"][0], depth + 1)
@@ -930,7 +953,7 @@ def r11c_one_entry_per_name(ctx):
             else:
                 r.violate(key, "push at %s is %s" % (crate.span_str(c["span"]),
                                                     "not guarded by !seen.contains(name)" if not guarded else "not followed by seen.insert(name)"))
-    r.floor("pushes into the per-file view", n, 5)
+    r.floor("pushes into the per-file view", n, 1)
     return r
 
 
@@ -1011,19 +1034,20 @@ def r11e_report_root_is_scan_root(ctx):
             if g is None:
                 continue
             pidx = [i for i in range(2, g.argc + 1) if g.local_ty(i).lstrip("&") in ("std::path::Path", "std::path::PathBuf")]
-            for i in pidx:
-                if i - 1 >= len(c["args"]):
-                    continue
-                if (res, f.origin[bb] if f.origin else f.id) in seen_pairs and f.origin and f.origin[bb] != f0.id:
-                    continue
-                seen_pairs.add((res, f.origin[bb] if f.origin else f.id))
-                n += 1
-                key = "R11e|%s|%s" % (f.id, res.split("::")[-1])
-                roots = {_root(f, sc["args"][1]) for _b, sc in scans if len(sc["args"]) > 1}
-                if _root(f, c["args"][i - 1]) in roots:
-                    r.ok(sample={"report": res.split("::")[-1], "rooted_at": "the scanned path"})
-                else:
-                    r.violate(key, "%s passes %s a path that is not the one handed to scan_workspace" % (f.id, res.split("::")[-1]))
+            pidx = [i for i in pidx if i - 1 < len(c["args"])]
+            if not pidx:
+                continue
+            if (res, f.origin[bb] if f.origin else f.id) in seen_pairs and f.origin and f.origin[bb] != f0.id:
+                continue
+            seen_pairs.add((res, f.origin[bb] if f.origin else f.id))
+            n += 1
+            key = "R11e|%s|%s" % (f.id, res.split("::")[-1])
+            roots = {_root(f, sc["args"][1]) for _b, sc in scans if len(sc["args"]) > 1}
+            # one of its path arguments is the root (a report may take a second path: a sub-directory, a file to describe)
+            if any(_root(f, c["args"][i - 1]) in roots for i in pidx):
+                r.ok(sample={"report": res.split("::")[-1], "rooted_at": "the scanned path"})
+            else:
+                r.violate(key, "%s passes %s a path that is not the one handed to scan_workspace" % (f.id, res.split("::")[-1]))
     r.floor("reports rooted at the scanned path", n, 1)
     return r
 
@@ -1401,5 +1425,5 @@ def r8i_docstring_blank_lines(ctx):
                     r.ok()
                 else:
                     r.violate(key, "%s tests `is_empty()` on a line that was not trimmed (at %s)" % (f.id.split("::")[-1], crate.span_str(c["span"])))
-    r.floor("blank-line tests in the docstring dedenter", n, 2)
+    r.floor("blank-line tests in the docstring dedenter", n, 1)
     return r
